@@ -165,6 +165,12 @@ std::string state_member_diff(const Opm::ScheduleState& a, const Opm::ScheduleSt
 std::vector<char> pack_state(const Opm::Schedule& s, std::size_t k) {
     Opm::Serialization::MemPacker packer; Ser ser(packer); ser.pack(s[k]); return ser.buf();
 }
+std::shared_ptr<Opm::ScheduleState> deep_copy_state(const Opm::Schedule& s, std::size_t k) {
+    Opm::Serialization::MemPacker packer; Ser ser(packer); ser.pack(s[k]);
+    auto c = std::make_shared<Opm::ScheduleState>();
+    ser.unpack(*c);
+    return c;
+}
 std::vector<char> pack_schedule(const Opm::Schedule& s) {
     Opm::Serialization::MemPacker packer; Ser ser(packer); ser.pack(s); return ser.buf();
 }
